@@ -180,10 +180,30 @@ def run(tier='quick', repo=None):
                             'the destination keeps its previous value, and a lookup after the copy returns something the source never held' % name} if ex else {}))
     if ncopy < 9:
         raise facts.AnalysisBroken('only %d uref_attr_copy_T functions found' % ncopy)
+    # ---- R-set-refusal ------------------------------------------------------------------
+    rep.rule('R-set-refusal', 'udict_inline_set: once the previous attribute of another size has been removed (udict_inline_delete) no refusal other than the allocation '
+             'failure of the growth is reachable - every validation of the request comes before the dictionary is touched, so a refused set leaves the value '
+             'last stored in place')
+    fset = u.funcs.get('udict_inline_set')
+    if fset is None or not fset.blocks:
+        raise facts.AnalysisBroken('anchor vanished: udict_inline_set')
+    evs = pr.Events(fset)
+    dele = pr.m_call('udict_inline_delete')
+    if not evs.find(dele):
+        raise facts.AnalysisBroken('udict_inline_set no longer calls udict_inline_delete')
+
+    def refusal(n_):
+        return n_.get('k') == 'return' and isinstance(n_.get('e'), dict) and (enum_name(n_['e']) or '').startswith('UBASE_ERR_') and \
+            enum_name(n_['e']) not in ('UBASE_ERR_NONE', 'UBASE_ERR_ALLOC')
+    late = pr.never_after(evs, dele, refusal)
+    rep.add('R-set-refusal', 'udict_inline_set', VIOLATED if late else HOLDS, fset.loc if not late else '%s:%s' % (fset.file, late[0][1][2].get('l')),
+            **({'what': 'a refusal (line %s) is reachable after the previous value was removed (line %s): the set fails and the attribute is gone' % (
+                late[0][1][2].get('l'), late[0][0][2].get('l'))} if late else {}))
     # ---- R-cmp-width -------------------------------------------------------------------
     rep.rule('R-cmp-width', 'the generated uref_G_cmp_A helpers ("0 if both attributes are absent or identical"): no return of an int-valued function yields the '
              'difference of two operands wider than int (uint64_t, int64_t) or of floating type, narrowed on the way out - 2^32 - 0 and 0.5 - 0.0 both narrow to 0, '
              'i.e. "identical"')
+    rep.rule('R-cmp-presence', 'the generated uref_G_cmp_A helpers look at the verdict of both getters: no getter call is a bare statement whose result is dropped')
     ncmp = 0
     for name, fn in sorted(H.funcs.items()):
         if not re.search(r'_cmp_\w+$', name) or not fn.blocks or not (fn.macro or '').startswith('UREF_ATTR_') or fn.ret != 'int':
@@ -198,6 +218,17 @@ def run(tier='quick', repo=None):
             for y in walk(fn.resolve(e)):
                 if isinstance(y, dict) and y.get('k') == 'bin' and y.get('op') == '-' and re.search(r'(uint64_t|int64_t|unsigned long|long|double|float)', str(y.get('t') or '')):
                     bad = (x.get('l'), y.get('t'))
+        # presence counts: the verdict of each getter is looked at (absent on one side only is a difference, whatever default the
+        # local variable holds)
+        dropped = None
+        for b_ in fn.blocks:
+            for st_ in fn.stmts(b_):
+                c_ = strip_all_casts(st_)
+                if isinstance(c_, dict) and c_.get('k') == 'call' and re.search(r'_get_\w+$', c_.get('fn') or ''):
+                    dropped = c_
+        rep.add('R-cmp-presence', name, VIOLATED if dropped else HOLDS, fn.loc if not dropped else '%s:%s' % (fn.file, dropped.get('l')),
+                **({'what': '%s ignores the verdict of %s: an attribute absent on one side compares with the default value of the local variable, so "absent" and '
+                            '"present with that value" are reported identical' % (name, dropped.get('fn'))} if dropped else {}))
         rep.add('R-cmp-width', name, VIOLATED if bad else HOLDS, fn.loc if not bad else '%s:%s' % (fn.file, bad[0]),
                 **({'what': '%s returns a difference computed in %s narrowed to int: values that differ by a multiple of 2^32 (or by less than 1) compare as identical' % (
                     name, bad[1])} if bad else {}))
